@@ -13,6 +13,8 @@ import (
 	"pgregory.net/rapid"
 
 	"verif/harness/core"
+	"verif/harness/der"
+	"verif/harness/xref"
 )
 
 // ---- C10: re-running sign is a no-op; only planned PEM files are ever written; CLI consent
@@ -142,6 +144,9 @@ func genC10(t *rapid.T) c10Case {
 		}
 		if rapid.IntRange(0, 5).Draw(t, l+"-manip") == 0 {
 			w.Ents[i].Manip = &core.Manip{SigValue: core.Bin([]byte{1, 2, 3}), Version: core.Int64P(1)}
+			if rapid.Bool().Draw(t, l+"-manip-pubkey") {
+				w.Ents[i].Manip.TbsPubKey = core.Bin([]byte{4, 1, 2, 3, 4})
+			}
 		}
 	}
 	// CSR-based subordinates: the artifact pre-holds a request and no key
@@ -218,6 +223,9 @@ type c10CLI struct {
 	Flags  int      // what the arguments mean
 	Answer string   // stdin
 	Edit   bool     // edit a config after the first run so that a replace is due
+	// Scenario: "" | "edit-root-add-leaf" (root edited and a new leaf created under it in the same run) |
+	// "sec1-key" (root artifact = valid certificate followed by a key block gopki cannot parse)
+	Scenario string `json:",omitempty"`
 }
 
 func runCLI(root string, args []string, stdin string) (string, int, error) {
@@ -247,6 +255,32 @@ func checkC10CLI(c c10CLI) (*core.Failure, string) {
 		e := &c.W.Ents[len(c.W.Ents)-1]
 		e.Subject = append(e.Subject, core.RDN{Key: "OU", Value: "edited"})
 		d.Put(e.File, e.Render())
+	}
+	switch c.Scenario {
+	case "edit-root-add-leaf":
+		root := &c.W.Ents[0]
+		root.Subject = append(root.Subject, core.RDN{Key: "O", Value: "renamed"})
+		d.Put(root.File, root.Render())
+		nl := core.Entity{File: "sub/new-leaf.yaml", Subject: []core.RDN{{Key: "CN", Value: "CLI New Leaf"}}, Issuer: "root"}
+		c.W.Ents = append(c.W.Ents, nl)
+		d.Put(nl.File, nl.Render())
+	case "sec1-key":
+		a := core.ParseArtifact(d.Files["root.pem"].Data)
+		if k, err := xref.ParsePKCS8(a.KeyDER); err == nil && k.Kind == "ec" {
+			sec1 := der.Seq(der.Integer(1), der.Octets(k.D.Bytes()), der.Explicit(0, der.MustOID(k.Curve.OID)))
+			d.Put("root.pem", append(core.PemBlock("CERTIFICATE", a.CertDER), core.PemBlock("EC PRIVATE KEY", sec1)...))
+		}
+	}
+	// which files hold an existing (parseable) certificate right now - judged by the harness, not by gopki
+	hadCert := map[string]bool{}
+	for p, fr := range d.Files {
+		if strings.HasSuffix(p, ".pem") {
+			if a := core.ParseArtifact(fr.Data); a.CertDER != nil {
+				if _, err := xref.ParseCert(a.CertDER); err == nil {
+					hadCert[p] = true
+				}
+			}
+		}
 	}
 	// reference: what the library does with the same strategy on the same state
 	ref := d.Clone()
@@ -284,6 +318,13 @@ func checkC10CLI(c c10CLI) (*core.Failure, string) {
 		want = append(want, core.PemPath(c.W.Ent(ch.Alias).File))
 	}
 	sort.Strings(want)
+	if !consent {
+		for _, p := range changed {
+			if hadCert[p] {
+				return core.Failf("C10/cli-replaced-without-consent", "%s held a certificate and was replaced although the answer was not 'y': %s", p, desc), "cli-noconsent"
+			}
+		}
+	}
 	if replaceDue && !consent {
 		if len(changed) != 0 {
 			return core.Failf("C10/cli-no-consent-writes", "an existing certificate was due for replacement and the answer was not 'y', yet files changed: %s", desc), "cli-noconsent"
@@ -293,11 +334,25 @@ func checkC10CLI(c c10CLI) (*core.Failure, string) {
 		}
 		return nil, "cli-noconsent"
 	}
+	if !refRes.OK() {
+		// the same run fails in the library (e.g. an issuer without usable key and generate-missing off): no further claim
+		if code == 0 {
+			return core.Failf("C10/cli-success-on-failed-run", "the library run fails (%s) but the CLI exits 0: %s", refRes.String(), desc), "cli"
+		}
+		return nil, "cli-run-fails"
+	}
 	if code != 0 {
 		return core.Failf("C10/cli-failed", "CLI failed where the library succeeds: %s", desc), "cli"
 	}
 	if fmt.Sprint(changed) != fmt.Sprint(want) {
 		return core.Failf("C10/cli-flag-mapping", "CLI changed %v, the library with strategy %05b changes %v: %s", changed, c.Flags, want, desc), "cli"
+	}
+	if c.Flags&(core.FlagMissing|core.FlagAll) != 0 && c.Flags&core.FlagChanged != 0 || c.Flags&core.FlagAll != 0 {
+		// after a consented run with -m -c (or -a) every certificate chains to its issuer's current certificate
+		if f := chainCheck("C10/cli", &c.W, d, false, true); f != nil {
+			f.Msg += "\n" + desc
+			return f, "cli-consent"
+		}
 	}
 	if replaceDue {
 		return nil, "cli-consent"
@@ -394,6 +449,11 @@ func TestC10(t *testing.T) {
 		}
 		c.Answer = rapid.SampledFrom([]string{"y\n", "Y\n", " y \n", "n\n", "\n", "yes\n", "x\n", "", "y", "N\n", "\ty\r\n"}).Draw(t, "answer")
 		c.Edit = rapid.Bool().Draw(t, "edit")
+		c.Scenario = rapid.SampledFrom([]string{"", "", "edit-root-add-leaf", "sec1-key"}).Draw(t, "scenario")
+		if c.Scenario == "sec1-key" && rapid.Bool().Draw(t, "root-only") {
+			c.W.Ents = c.W.Ents[:1] // no other entity whose replacement would trigger the prompt anyway
+			c.Edit = false
+		}
 		return c
 	}
 	core.Rapid(r, "cli", r.Pick(120, 6000), genCLI, wrapCLI)
